@@ -486,6 +486,12 @@ class RecordingBackend(AsyncResultBackend):  # type: ignore[type-arg]
             sc.trace.add("set_fail", d)
             if sc.spec["backend"].get("fail_noargs"):
                 raise BackendDown  # an exception without arguments (ConnectionResetError(), TimeoutError(), ...)
+            fx = sc.spec["backend"].get("fail_exc")
+            if fx:
+                import socket
+
+                raise {"TimeoutError": TimeoutError, "socket.timeout": socket.timeout, "ConnectionError": ConnectionError,
+                       "KeyError": KeyError, "asyncio.TimeoutError": asyncio.TimeoutError}[fx]("backend down")
             raise BackendDown("backend down")
         self.store[task_id] = result
         if self.stock is not None:
@@ -803,8 +809,10 @@ def _beh_for(sc: Scenario, tok: str) -> Dict[str, Any]:
 def _outcome(sc: Scenario, d: Any, tok: str, beh: Dict[str, Any], depvals: Any, echo: Any) -> Any:
     out = beh.get("out", "ok")
     if out == "ok":
-        val = {"tok": tok, "v": beh.get("value"), "deps": depvals, "echo": echo}
+        val: Any = {"tok": tok, "v": beh.get("value"), "deps": depvals, "echo": echo}
         sc.trace.add("task_end", d, how="return")
+        if beh.get("ret_handle"):
+            return _Handle(val)  # the function's return value is an object that happens to be awaitable (a handle, a future)
         return val
     if out == "noresult":
         sc.trace.add("task_end", d, how="noresult")
@@ -913,6 +921,19 @@ def _run_beh_sync(sc: Scenario, tok: str, args: Any, kwargs: Any, depvals: Any, 
         else:
             _time.sleep(min(hold, 0.2))
     return _outcome(sc, d, tok, beh, depvals, echo)
+
+
+class _Handle(dict):
+    """A return value that is awaitable: what the function returned is this object, not what awaiting it would give."""
+
+    def __await__(self) -> Any:
+        async def _r() -> str:
+            return "AWAITED-PRODUCT"
+        return _r().__await__()
+
+
+def _twin_dep() -> str:
+    return "twin-token"
 
 
 class MonExecutor(ThreadPoolExecutor):
@@ -1274,6 +1295,18 @@ def run_worker(spec: Dict[str, Any], real: bool = False) -> RunResult:
         )
         receiver.sc = sc
         rr.receiver = receiver
+        if spec.get("twin_receiver"):
+            # a second worker object in this process: its broker has tasks of the same names with another signature
+            from mon.args_labels import PlainBroker
+
+            twin_b = PlainBroker()
+            for tn in list(tasks):
+                def _twin(tok: Any, *a: Any, token: str = TaskiqDepends(_twin_dep), **k: Any) -> str:
+                    return "twin"
+                _twin.__name__ = "twin_" + tn
+                _twin.__module__ = "mon.worker_harness"
+                twin_b.register_task(_twin, task_name=tn)
+            rr.twin = Receiver(broker=twin_b, run_startup=False, max_async_tasks=1)  # type: ignore[attr-defined]
         if late_backend:
             broker.with_result_backend(backend_obj)  # configured after the receiver object exists
         finish = asyncio.Event()
